@@ -219,8 +219,11 @@ class Realiser:
         op = st["op"]
         if op == "if":
             o = ops(st["mv"])
-            self.uses_c = True
-            cond = self.c if st["cond"] == "c" else o.not_(self.c)
+            if st["cond"] in ("t", "f"):  # a constant condition (usable inside function bodies)
+                cond = o.const(np.array(st["cond"] == "t"))
+            else:
+                self.uses_c = True
+                cond = self.c if st["cond"] == "c" else o.not_(self.c)
 
             def mk(blk):
                 def f():
@@ -299,7 +302,7 @@ def np_block(nodes, env, c):
 def np_stmt(st, env, c):
     op = st["op"]
     if op == "if":
-        cond = c if st["cond"] == "c" else (not c)
+        cond = {"c": c, "nc": not c, "t": True, "f": False}[st["cond"]]
         blk = st["then"] if cond else st["else"]
         e = dict(env)
         np_block(blk["nodes"], e, c)
@@ -344,6 +347,8 @@ def emitted(st) -> list[tuple[str, str, int]]:
         out = [("", "If", since("", "If", st["mv"]))]
         if st["cond"] == "nc":
             out.append(("", "Not", since("", "Not", st["mv"])))
+        if st["cond"] in ("t", "f"):
+            out.append(("", "Constant", since("", "Constant", st["mv"])))
         return out
     if op in ("inline", "func"):
         return []
@@ -546,7 +551,8 @@ class Gen:
             if r < 0.16 and depth < self.max_depth and self.size >= 2:
                 tb, tt = self.block(pool, tainted, depth + 1, 0, in_func)
                 eb, et = self.block(pool, tainted, depth + 1, 0, in_func)
-                st = {"id": self.fresh(), "op": "if", "mv": self.mv(), "cond": rng.choice(["c", "nc"]),
+                st = {"id": self.fresh(), "op": "if", "mv": self.mv(),
+                      "cond": rng.choice(["t", "f"] if in_func else ["c", "nc"]),
                       "then": tb, "else": eb}
                 if tt or et:
                     tainted.add(st["id"])
@@ -557,7 +563,7 @@ class Gen:
                 np_ = rng.randrange(1, 3)
                 params = [self.fresh() for _ in range(np_)]
                 save = self.max_depth
-                self.max_depth = min(self.max_depth, 1)
+                self.max_depth = min(self.max_depth, 2)
                 body, bt = self.block(params, set(), 1, 0, in_func=True)
                 self.max_depth = save
                 st = {"id": self.fresh(), "op": "func", "name": f"f{next(_uid)}",
@@ -627,7 +633,6 @@ class Gen:
                 outs.append(o)
         prog = sink(prune({"nodes": nodes, "outs": outs}))
         if self.clean:
-            pin_bodies(prog)
             align_unknown_rank(prog)
         return prog
 
